@@ -1,7 +1,5 @@
 //@include _shared/handler_prelude_core.rs
 //@include _shared/copy_iter.rs
-opaque!(Channel);
-opaque!(BusListener);
 
 // ServiceInfo: opaque Copy value (core/src/service_info.rs); the registry only stores it and hands it out
 #[verifier::external_body]
